@@ -12,6 +12,7 @@ name: url_set_proto
 define: FIELD=proto
 src: url.c
 backend: sat
+native: self
 flags: --memory-leak-check
 funcs: spif_url_set_proto, spif_url_get_proto
 */
@@ -20,6 +21,7 @@ name: url_set_user
 define: FIELD=user
 src: url.c
 backend: sat
+native: self
 flags: --memory-leak-check
 funcs: spif_url_set_user, spif_url_get_user
 */
@@ -28,6 +30,7 @@ name: url_set_passwd
 define: FIELD=passwd
 src: url.c
 backend: sat
+native: self
 flags: --memory-leak-check
 funcs: spif_url_set_passwd, spif_url_get_passwd
 */
@@ -36,6 +39,7 @@ name: url_set_host
 define: FIELD=host
 src: url.c
 backend: sat
+native: self
 flags: --memory-leak-check
 funcs: spif_url_set_host, spif_url_get_host
 */
@@ -44,6 +48,7 @@ name: url_set_port
 define: FIELD=port
 src: url.c
 backend: sat
+native: self
 flags: --memory-leak-check
 funcs: spif_url_set_port, spif_url_get_port
 */
@@ -52,6 +57,7 @@ name: url_set_path
 define: FIELD=path
 src: url.c
 backend: sat
+native: self
 flags: --memory-leak-check
 funcs: spif_url_set_path, spif_url_get_path
 */
@@ -60,6 +66,7 @@ name: url_set_query
 define: FIELD=query
 src: url.c
 backend: sat
+native: self
 flags: --memory-leak-check
 funcs: spif_url_set_query, spif_url_get_query
 */
@@ -67,6 +74,14 @@ funcs: spif_url_set_query, spif_url_get_query
 #include "env_net.h"
 #define VERIF_NO_ASSUMED_STR_CONTRACTS
 #include "url.h"
+#ifdef VERIF_NATIVE             /* native replay: the linked str.c keeps its own names */
+# define spif_str_done vg_m_str_done
+# define spif_str_del vg_m_str_del
+# ifndef VCAP
+#  define VCAP 0x3fffffffL
+# endif
+# define __CPROVER_rw_ok(p, n) 1
+#endif
 spif_bool_t spif_str_done(spif_str_t self)
 {
     ASSERT_RVAL(!SPIF_STR_ISNULL(self), FALSE);
@@ -87,33 +102,42 @@ spif_bool_t spif_str_del(spif_str_t self)
 }
 #undef SPIF_OBJ_DEL
 #define SPIF_OBJ_DEL(o) spif_str_del((spif_str_t) (o))
-#include "src/url.c"
+#ifdef VERIF_NATIVE
+# include "rawsrc/url.c"
+#else
+# include "src/url.c"
+#endif
 
 #define CAT_(a, b) a ## b
 #define CAT(a, b) CAT_(a, b)
 #define SETTER CAT(spif_url_set_, FIELD)
 #define GETTER CAT(spif_url_get_, FIELD)
 
-static spif_str_t mk_comp(void)
+static spif_str_t mk_comp(_Bool has, long len, long size)
 {
-    if (nondet_bool()) return NULL;
-    spif_str_t p = malloc(sizeof(spif_const_str_t));
-    p->len = nondet_long(); p->size = nondet_long();
+    spif_str_t p;
+    if (!has) return NULL;
+    p = malloc(sizeof(spif_const_str_t));
+    p->len = len; p->size = size;
     __CPROVER_assume(p->len >= 0 && p->len < p->size && p->size <= VCAP);
+#ifdef VERIF_NATIVE              /* the witness' sizes may be huge: same shape, short buffers */
+    if (p->size > 64) { p->len = p->len % 30; p->size = p->len + 1 + p->size % 5; }
+#endif
     p->s = malloc(p->size);
     return p;
 }
+#define ANY_COMP(n) mk_comp(VND(bool, has_ ## n), VND(long, len_ ## n), VND(long, size_ ## n))
 static void rm_comp(spif_str_t p) { if (p) { free(p->s); free(p); } }
 
 void harness(void)
 {
-    libast_debug_level = nondet_uint();          /* every run-time debug level */
+    libast_debug_level = VND(uint, debug_level);          /* every run-time debug level */
     spif_url_t u = malloc(sizeof(spif_const_url_t));
     spif_const_url_t before;
-    spif_str_t nv = mk_comp();
+    spif_str_t nv = ANY_COMP(nv);
     NSTR(u)->s = NULL; NSTR(u)->len = 0; NSTR(u)->size = 0;
-    u->proto = mk_comp(); u->user = mk_comp(); u->passwd = mk_comp(); u->host = mk_comp();
-    u->port = mk_comp(); u->path = mk_comp(); u->query = mk_comp();
+    u->proto = ANY_COMP(proto); u->user = ANY_COMP(user); u->passwd = ANY_COMP(passwd); u->host = ANY_COMP(host);
+    u->port = ANY_COMP(port); u->path = ANY_COMP(path); u->query = ANY_COMP(query);
     before = *u;
     __CPROVER_assert(GETTER(u) == u->FIELD, "getter returns the stored component");
 
